@@ -98,7 +98,7 @@ class SchemaSim final : public Engine {
     auto& r = c.gen;
     const auto env = EnvOf(f);
     exprgen::Gen g(r, env, static_cast<int>(c.C("expr_depth", 2)));
-    g.siblingReuse = r.Pct(12);
+    g.siblingReuse = r.Pct(12); g.nearMiss = r.Pct(25) ? 10 : 0;
     std::string def;
     if (r.Pct(static_cast<int>(c.C("p_dup", 8)))) {   // duplicate of an existing definition (same text or same tree, different spelling)
       std::vector<std::string> defs; for (const auto uid : f.List()) if (!f.GetRS(uid).definition.empty()) defs.push_back(f.GetRS(uid).definition);
